@@ -157,38 +157,73 @@ theorem sub_programs_are_token_game (p : Proc) (hp : Bpmn.Props.C01Fragment.NoIn
   Bpmn.Props.C01FragmentCurrent.current_noIncl_conformance p hp vars ops
 
 /-- a program of the nest shape has no inclusive gateway -/
-theorem nest_noIncl (p : Proc) (d : Nat) (U S E : Nat → String) (sh : Bpmn.Props.C12Nest.Shape p d U S E) :
+theorem nest_noIncl (p : Proc) (d K : Nat) (U S E T : Nat → String) (sh : Bpmn.Props.C12Nest.Shape p d K U S E T) :
     Bpmn.Props.C01Fragment.NoIncl p := by
   intro n hn hk
   have := List.filter_eq_nil_iff.mp sh.noIncl n hn
   simp [hk] at this
   exact absurd this (by decide)
 
-/-- **C12 at any nesting depth, for today's engine model.** At the configuration extracted from /repo on this run, every
-program of the nest shape (`Props/C12Nest.Shape`: `d ≥ 1` sub-process levels around one task, one task behind them) runs as
-`Props/C12Nest.NestRun` says: the inner task is requested on start; once it is answered every level returns, innermost
-first, exactly once; the following task is requested once; the instance completes. -/
-theorem nest_run_current (p : Proc) (d : Nat) (U S E : Nat → String) (sh : Bpmn.Props.C12Nest.Shape p d U S E)
-    (vars : Vars) (r1 r2 : List (String × Int)) :
-    Bpmn.Props.C12Nest.NestRun p d E
-      (runOps Bpmn.Props.EngineCurrent.faithful p vars [])
-      (runOps Bpmn.Props.EngineCurrent.faithful p vars [("T", 1, .ok r1)])
-      (runOps Bpmn.Props.EngineCurrent.faithful p vars [("T", 1, .ok r1), ("C", 1, .ok r2)]) := by
-  rw [sub_programs_are_token_game p (nest_noIncl p d U S E sh), sub_programs_are_token_game p (nest_noIncl p d U S E sh),
-    sub_programs_are_token_game p (nest_noIncl p d U S E sh)]
-  exact Bpmn.Props.C12Nest.nest_run sh vars r1 r2
+/-- the driver's answers as `runOps` operations -/
+def opsOf (as : List (String × List (String × Int))) : List (String × Nat × Answer) := as.map (fun a => (a.1, 1, .ok a.2))
 
-/-- … in particular on the concrete family `nestProc d`, for every `d ≥ 1` -/
-theorem nestProc_run_current (d : Nat) (hd : 0 < d) (vars : Vars) (r1 r2 : List (String × Int)) :
-    Bpmn.Props.C12Nest.NestRun (Bpmn.Props.C12Nest.nestProc d) d (Bpmn.Props.C12Nest.nm 'E')
-      (runOps Bpmn.Props.EngineCurrent.faithful (Bpmn.Props.C12Nest.nestProc d) vars [])
-      (runOps Bpmn.Props.EngineCurrent.faithful (Bpmn.Props.C12Nest.nestProc d) vars [("T", 1, .ok r1)])
-      (runOps Bpmn.Props.EngineCurrent.faithful (Bpmn.Props.C12Nest.nestProc d) vars [("T", 1, .ok r1), ("C", 1, .ok r2)]) :=
-  nest_run_current _ d _ _ _ (Bpmn.Props.C12Nest.nest_shape d hd) vars r1 r2
+theorem runOps_snoc (cfg : Cfg) (p : Proc) (vars : Vars) (pre : List (String × Nat × Answer)) (a : String) (r : List (String × Int)) :
+    runOps cfg p vars (pre ++ [(a, 1, .ok r)]) = answer cfg p (runOps cfg p vars pre) a 1 (.ok r) := by
+  simp [runOps, List.foldl_append]
 
-/-- the model's nest of depth 3 really is the program one would draw (executable check of the constructor) -/
-example : ((Bpmn.Props.C12Nest.nestProc 3).nodes.map (·.id), (start Cfg.ideal (Bpmn.Props.C12Nest.nestProc 3) []).obs) =
-    (["s", "T", "C", "e", "U", "Ux", "Uxx", "S", "Sx", "Sxx", "E", "Ex", "Exx"], [.req "T"]) := by decide
+/-- `traceC` from the state after `pre` is the list of the observations of the longer and longer `runOps`, and the last one -/
+theorem traceC_runOps (cfg : Cfg) (p : Proc) (vars : Vars) : ∀ (as : List (String × List (String × Int)))
+    (pre : List (String × Nat × Answer)),
+    Bpmn.Props.C12Nest.traceC cfg p (runOps cfg p vars pre) as =
+      ((List.range as.length).map (fun n => (runOps cfg p vars (pre ++ (opsOf as).take (n + 1))).obs),
+       runOps cfg p vars (pre ++ opsOf as))
+  | [], pre => by simp [Bpmn.Props.C12Nest.traceC, opsOf]
+  | (a, r) :: rest, pre => by
+    have ih := traceC_runOps cfg p vars rest (pre ++ [(a, 1, .ok r)])
+    rw [runOps_snoc] at ih
+    simp only [Bpmn.Props.C12Nest.traceC, ih, List.length_cons, List.range_succ_eq_map, List.map_cons, List.map_map]
+    have e0 : pre ++ List.take (0 + 1) (opsOf ((a, r) :: rest)) = pre ++ [(a, 1, .ok r)] := by simp [opsOf]
+    rw [e0, runOps_snoc]
+    refine Prod.ext ?_ ?_
+    · simp only [List.cons.injEq, true_and]
+      apply List.map_congr_left
+      intro n _
+      simp [opsOf, List.append_assoc]
+    · simp [opsOf, List.append_assoc]
+
+/-- **C12 at any nesting depth, for any chain inside, for today's engine model.** At the configuration extracted from /repo on
+this run, every program of the nest shape (`Props/C12Nest.Shape`: `d ≥ 1` sub-process levels around a chain of `K ≥ 1` tasks,
+one task behind them) runs as `Props/C12Nest.NestRun` says: the innermost tasks are requested one after the other; once the
+last is answered every level returns, innermost first, exactly once; the following task is requested once; the instance
+completes. -/
+theorem nest_run_current (p : Proc) (d K : Nat) (U S E T : Nat → String) (sh : Bpmn.Props.C12Nest.Shape p d K U S E T)
+    (vars : Vars) (rs : List (List (String × Int))) (hrs : rs.length = K + 1) :
+    Bpmn.Props.C12Nest.NestRun p d K E T (start Bpmn.Props.EngineCurrent.faithful p vars)
+      (Bpmn.Props.C12Nest.traceC Bpmn.Props.EngineCurrent.faithful p (start Bpmn.Props.EngineCurrent.faithful p vars)
+        ((Bpmn.Props.C12Nest.namesFrom T 0 K ++ ["C"]).zip rs)) := by
+  have hp := nest_noIncl p d K U S E T sh
+  have h0 : ∀ cfg, start cfg p vars = runOps cfg p vars [] := fun _ => rfl
+  have key : Bpmn.Props.C12Nest.traceC Bpmn.Props.EngineCurrent.faithful p (start Bpmn.Props.EngineCurrent.faithful p vars)
+        ((Bpmn.Props.C12Nest.namesFrom T 0 K ++ ["C"]).zip rs) =
+      Bpmn.Props.C12Nest.traceC Cfg.ideal p (start Cfg.ideal p vars) ((Bpmn.Props.C12Nest.namesFrom T 0 K ++ ["C"]).zip rs) := by
+    rw [h0, h0, traceC_runOps, traceC_runOps]
+    simp only [sub_programs_are_token_game p hp]
+  rw [key, h0 Bpmn.Props.EngineCurrent.faithful, sub_programs_are_token_game p hp]
+  exact Bpmn.Props.C12Nest.nest_run sh vars rs hrs
+
+/-- … in particular on the concrete family `nestProc d K`, for every `d ≥ 1`, `K ≥ 1` -/
+theorem nestProc_run_current (d K : Nat) (hd : 0 < d) (hK : 0 < K) (vars : Vars) (rs : List (List (String × Int)))
+    (hrs : rs.length = K + 1) :
+    Bpmn.Props.C12Nest.NestRun (Bpmn.Props.C12Nest.nestProc d K) d K (Bpmn.Props.C12Nest.nm 'E') (Bpmn.Props.C12Nest.nm 'T')
+      (start Bpmn.Props.EngineCurrent.faithful (Bpmn.Props.C12Nest.nestProc d K) vars)
+      (Bpmn.Props.C12Nest.traceC Bpmn.Props.EngineCurrent.faithful (Bpmn.Props.C12Nest.nestProc d K)
+        (start Bpmn.Props.EngineCurrent.faithful (Bpmn.Props.C12Nest.nestProc d K) vars)
+        ((Bpmn.Props.C12Nest.namesFrom (Bpmn.Props.C12Nest.nm 'T') 0 K ++ ["C"]).zip rs)) :=
+  nest_run_current _ d K _ _ _ _ (Bpmn.Props.C12Nest.nest_shape d K hd hK) vars rs hrs
+
+/-- the model's nest of depth 3 around 2 tasks really is the program one would draw (executable check of the constructor) -/
+example : ((Bpmn.Props.C12Nest.nestProc 3 2).nodes.map (·.id), (start Cfg.ideal (Bpmn.Props.C12Nest.nestProc 3 2) []).obs) =
+    (["s", "C", "e", "U", "Ux", "Uxx", "S", "Sx", "Sxx", "E", "Ex", "Exx", "T", "Tx"], [.req "T"]) := by decide
 
 /-- non-vacuity: the nested, looped sub-process program of Props/C01Fragment has sub-processes and no inclusive gateway -/
 example : Bpmn.Props.C01Fragment.NoIncl Bpmn.Props.C01Fragment.demoSub ∧
